@@ -38,6 +38,7 @@ type Contract struct {
 	Frames          map[string][]string
 	Modifies        []string
 	Inline          bool
+	Assumed         bool
 	Pure            bool        // modifies nothing (checked)
 	Trusted         bool        // contract assumed, body not verified (externals)
 	Thread          bool        // body runs as its own goroutine
@@ -198,6 +199,10 @@ func parseContracts(path string) ([]*Contract, []*SpecDef, error) {
 			last = nil
 		case "inline":
 			cur.Inline = true
+			last = nil
+		case "assumed":
+			// the contract of a package function whose body is not verified (listed as an assumption)
+			cur.Assumed = true
 			last = nil
 		case "pure":
 			cur.Pure = true
